@@ -30,7 +30,7 @@ RULE = ('A: include trees (all ordered rooted tree shapes up to N files + repeat
 ASSUMPTIONS = ['in-memory readers registered after the two default readers', 'scratch directory created per run and removed']
 WITNESSES = ['later_binding_overrides_across_include', 'binding_after_include_wins', 'depth3', 'tree_mirrored',
              'imports_per_file', 'missing_include_ioerror', 'location_order', 'reader_order_within_location',
-             'absolute_bypasses', 'package_relative', 'namespace_package_location', 'files_then_bindings_then_finalize',
+             'absolute_bypasses', 'package_relative', 'namespace_package_location', 'namespace_package_two_portions', 'files_then_bindings_then_finalize',
              'finalize_disabled', 'unknown_default_error', 'real_files', 'repeated_inclusion', 'second_resolution_fresh', 'location_registered_twice']
 
 MEM1, MEM2 = {}, {}
@@ -492,16 +492,43 @@ def run_special_case(case, res):
                       'got %s %r, expected %r' % (desc, out, got, want), desc)
       else:
         res.w('namespace_package_location')
+    elif kind.startswith('namespace_two_portions'):
+      # a PEP 420 namespace package spread over two sys.path entries; the file may live in either portion
+      pk = 'c14ns_' + kind
+      for portion, fname, val in (('p1', 'first.gin', 'first'), ('p2', 'second.gin', 'second')):
+        d = os.path.join(base, portion, pk, 'conf')
+        os.makedirs(d)
+        with open(os.path.join(d, fname), 'w') as fh:
+          fh.write("c14.f.x = '%s'\n" % val)
+      with open(os.path.join(base, 'p1', pk, 'conf', 'inc.gin'), 'w') as fh:
+        fh.write("include '%s/conf/second.gin'\nc14.f.y = 'inc'\n" % pk)
+      sys.path[0:0] = [os.path.join(base, 'p1'), os.path.join(base, 'p2')]
+      import importlib  # pylint: disable=import-outside-toplevel
+      importlib.invalidate_caches()
+      name, want = {'namespace_two_portions_first': ('first.gin', ('first', None)),
+                    'namespace_two_portions_second': ('second.gin', ('second', None)),
+                    'namespace_two_portions_include': ('inc.gin', ('second', 'inc'))}[kind]
+      try:
+        gin.parse_config_file('%s/conf/%s' % (pk, name))
+        r = F()
+        if (r[0], r[1]) != want:
+          res.violation('package_relative_wrong', '%r: got %r, expected %r' % (desc, r, want), desc)
+        else:
+          res.w('namespace_package_two_portions')
+      except Exception as e:  # pylint: disable=broad-except
+        res.violation('package_relative_failed', '%r: a file in a later portion of a namespace package that is on the '
+                      'Python path: %r' % (desc, e), desc)
     res.outcome('special:' + kind)
   finally:
     os.chdir(old_cwd)
     sys.path[:] = old_path
-    for k in [k for k in sys.modules if k.startswith('c14pkg_') or k in ('nsconfigs',)]:
+    for k in [k for k in sys.modules if k.startswith('c14pkg_') or k.startswith('c14ns_') or k in ('nsconfigs',)]:
       del sys.modules[k]
 
 
 SPECIALS = ['absolute_present', 'absolute_missing', 'package_regular', 'package_nested', 'namespace_location_missing',
-            'namespace_location_later', 'namespace_location_present']
+            'namespace_location_later', 'namespace_location_present', 'namespace_two_portions_first',
+            'namespace_two_portions_second', 'namespace_two_portions_include']
 
 
 # ------------------------------------------------------------------------------------ C: multi-file entry point
